@@ -109,12 +109,12 @@ Section Compressor.
   Qed.
 
   (* ---- ZSTD_seekable_compressStream ---- *)
-  Lemma compress_inv s inp orc r : CInv s -> c_wst s = false -> c_compress H s inp orc = Some r ->
+  Lemma compress_body_inv s inp orc r : CInv s -> c_wst s = false -> c_compress_body H s inp orc = Some r ->
     CInv (cr_st r) /\ stream (cr_st r) = stream s ++ firstN inp (cr_consumed r) /\ c_wst (cr_st r) = false /\
     c_cf (cr_st r) = c_cf s /\ c_mfs (cr_st r) = c_mfs s /\ cr_consumed r <= lenN inp.
   Proof.
     intros I Hw. pose proof I as [Im [Ifd1 Ifd2] Iacc Ifc Ilog Isz In Itab].
-    unfold c_compress.
+    unfold c_compress_body.
     rewrite (sub32_small (c_mfs s) (c_fd s)) by lia.
     set (inLen := N.min (lenN inp) (c_mfs s - c_fd s)).
     (* the inner ZSTD_compressStream call *)
@@ -126,7 +126,7 @@ Section Compressor.
                 let fed := firstN inp k in
                 let acc' := if flag_set (c_cf s) then rev_append fed (c_acc s) else c_acc s in
                 Some (ret,
-                      mkC (c_log s) (w32 (c_fc s + produced)) (w32 (c_fd s + k)) acc' (c_mfs s) (c_cf s) (c_wst s)
+                      mkC (c_log s) (w32 (c_fc s + produced)) (w32 (c_fd s + k)) acc' (c_mfs s) (c_cf s) (c_wst s) (c_pend s)
                           (c_stpos s) (c_stidx s) (rev_append fed (g_cur s)) (g_emit s + produced) (g_frames s) (g_table s),
                       orc', k)
             | _ => None
@@ -160,6 +160,21 @@ Section Compressor.
       intros E. injection E as <-. cbn [cr_st cr_consumed].
       conj_split; try assumption; congruence.
     - intros E. injection E as <-. cbn [cr_st cr_consumed]. conj_split; assumption.
+  Qed.
+
+  (* the whole call (fix 9f11afe): a pending frame end is completed first *)
+  Lemma compress_inv s inp orc r : CInv s -> c_wst s = false -> c_compress H s inp orc = Some r ->
+    CInv (cr_st r) /\ stream (cr_st r) = stream s ++ firstN inp (cr_consumed r) /\ c_wst (cr_st r) = false /\
+    c_cf (cr_st r) = c_cf s /\ c_mfs (cr_st r) = c_mfs s /\ cr_consumed r <= lenN inp.
+  Proof.
+    intros I Hw. unfold c_compress. destruct (c_pend s); [|apply compress_body_inv; assumption].
+    destruct (c_end_frame H s orc) as [r'|] eqn:E2; [|discriminate].
+    destruct (end_frame_inv s orc r' I Hw E2) as (I2 & S2 & W2 & F2 & M2 & C2 & _).
+    destruct (negb (cr_ret r' =? 0)).
+    - intros E. injection E as <-. cbn [cr_st cr_consumed]. rewrite firstN_0, app_nil_r.
+      conj_split; try assumption. lia.
+    - intros E. destruct (compress_body_inv (cr_st r') inp (cr_orc r') r I2 W2 E) as (I3 & S3 & W3 & F3 & M3 & K3).
+      conj_split; try assumption; congruence.
   Qed.
 
   (* ---- ZSTD_seekable_endStream ---- *)
@@ -398,10 +413,10 @@ Qed.
 
 (* ZSTD_seekable_compressStream looks at no more than maxFrameSize bytes of the input it is offered: the
    correspondence driver may therefore hand the model the first maxFrameSize bytes only (a performance clamp) *)
-Lemma c_compress_input_prefix H s inp orc : c_fd s <= c_mfs s -> c_mfs s < 4294967296 ->
-  c_compress H s inp orc = c_compress H s (firstN inp (c_mfs s)) orc.
+Lemma c_compress_body_input_prefix H s inp orc : c_fd s <= c_mfs s -> c_mfs s < 4294967296 ->
+  c_compress_body H s inp orc = c_compress_body H s (firstN inp (c_mfs s)) orc.
 Proof.
-  intros Hfd Hm. unfold c_compress.
+  intros Hfd Hm. unfold c_compress_body.
   rewrite (sub32_small (c_mfs s) (c_fd s)) by lia.
   rewrite lenN_firstN.
   replace (N.min (N.min (c_mfs s) (lenN inp)) (c_mfs s - c_fd s)) with (N.min (lenN inp) (c_mfs s - c_fd s)) by lia.
@@ -411,4 +426,192 @@ Proof.
   assert (E : firstN (firstN inp (c_mfs s)) (N.min consumed inLen) = firstN inp (N.min consumed inLen)).
   { rewrite firstN_firstN. f_equal. unfold inLen. lia. }
   cbv zeta. rewrite E. reflexivity.
+Qed.
+
+Lemma end_frame_mfs_fd H s orc r : c_end_frame H s orc = Some r ->
+  c_mfs (cr_st r) = c_mfs s /\ (c_fd (cr_st r) = c_fd s \/ c_fd (cr_st r) = 0).
+Proof.
+  unfold c_end_frame. destruct orc as [|[?|produced ret] orc']; try discriminate.
+  destruct (negb (ret =? 0)).
+  - intros E. injection E as <-. cbn. auto.
+  - cbn [c_log c_fc c_fd c_cf c_acc c_mfs].
+    match goal with |- match ?X with _ => _ end = _ -> _ => destruct X end; try discriminate;
+      intros E; injection E as <-; cbn; auto.
+Qed.
+
+Lemma c_compress_input_prefix H s inp orc : c_fd s <= c_mfs s -> c_mfs s < 4294967296 ->
+  c_compress H s inp orc = c_compress H s (firstN inp (c_mfs s)) orc.
+Proof.
+  intros Hfd Hm. unfold c_compress. destruct (c_pend s); [|apply c_compress_body_input_prefix; assumption].
+  destruct (c_end_frame H s orc) as [r|] eqn:E; [|reflexivity].
+  destruct (negb (cr_ret r =? 0)); [reflexivity|].
+  destruct (end_frame_mfs_fd H s orc r E) as [Em Ef].
+  rewrite <- Em. apply c_compress_body_input_prefix; rewrite Em; [|assumption].
+  destruct Ef as [-> | ->]; lia.
+Qed.
+
+(* ------------------------------------------------------------------ one seek-table entry = one zstd frame (fix 9f11afe)
+   The inner ZSTD_CStream ends a zstd frame when ZSTD_endStream returns 0 - or, when a ZSTD_endStream has returned > 0 and
+   ZSTD_compressStream is called next, inside that ZSTD_compressStream call, which then starts a NEW frame that the
+   seekable layer would keep counting into the same table entry.  [inner_seq_ok ending l]: in the sequence l of inner calls
+   no ZSTD_compressStream is issued while an end is pending ([ending] = a ZSTD_endStream returned a non-error value > 0
+   and none has returned 0 since).  Every API call history, every inner behaviour, no contract on the caller. *)
+Fixpoint inner_seq_ok (ending : bool) (l : list inner) : Prop :=
+  match l with
+  | [] => True
+  | ICompress _ _ _ :: r => ending = false /\ inner_seq_ok false r
+  | IEnd _ ret :: r => inner_seq_ok (if ret =? 0 then false else if is_error ret then ending else true) r
+  end.
+Fixpoint inner_seq_end (ending : bool) (l : list inner) : bool :=
+  match l with
+  | [] => ending
+  | ICompress _ _ _ :: r => inner_seq_end false r
+  | IEnd _ ret :: r => inner_seq_end (if ret =? 0 then false else if is_error ret then ending else true) r
+  end.
+Definition orc_of (op : cop) : list inner :=
+  match op with OpCompress _ o => o | OpEndFrame o => o | OpEndStream _ o => o end.
+
+Lemma inner_seq_app e a b : inner_seq_ok e (a ++ b) <-> inner_seq_ok e a /\ inner_seq_ok (inner_seq_end e a) b.
+Proof.
+  revert e. induction a as [|[c p r|p r] a IH]; intros e; cbn [app inner_seq_ok inner_seq_end].
+  - tauto.
+  - rewrite IH. tauto.
+  - apply IH.
+Qed.
+Lemma inner_seq_end_app e a b : inner_seq_end e (a ++ b) = inner_seq_end (inner_seq_end e a) b.
+Proof. revert e. induction a as [|[c p r|p r] a IH]; intros e; cbn [app inner_seq_end]; auto. Qed.
+
+Section OneEntryOneFrame.
+  Variable H : list N -> N.
+
+  (* what an API call does with its oracle: it consumes a prefix [used], issued in an order that respects the pending end *)
+  Definition uses (s : cstate) (orc : list inner) (r : cret) : Prop :=
+    exists used, orc = used ++ cr_orc r /\ inner_seq_ok (c_pend s) used /\ inner_seq_end (c_pend s) used = c_pend (cr_st r).
+
+  Lemma end_frame_uses s orc r : c_end_frame H s orc = Some r -> uses s orc r.
+  Proof.
+    unfold c_end_frame. destruct orc as [|[?|produced ret] orc']; try discriminate.
+    destruct (N.eqb_spec ret 0) as [->|Hr]; cbn [negb].
+    - cbn [c_log c_fc c_fd c_cf c_acc].
+      match goal with |- match ?X with _ => _ end = _ -> _ => destruct X end; try discriminate;
+        intros E; injection E as <-; exists [IEnd produced 0]; cbn; auto.
+    - intros E. injection E as <-. exists [IEnd produced ret]. cbn [app cr_orc cr_st c_pend inner_seq_ok inner_seq_end].
+      replace (ret =? 0) with false by (symmetry; apply N.eqb_neq; assumption). auto.
+  Qed.
+
+  Lemma uses_nil s orc st' v k out : c_pend st' = c_pend s -> uses s orc (mkCR v k st' orc out).
+  Proof. intros E. exists []. cbn. auto. Qed.
+
+  Lemma uses_trans s orc r1 r2 : uses s orc r1 -> uses (cr_st r1) (cr_orc r1) r2 ->
+    forall v k out, uses s orc (mkCR v k (cr_st r2) (cr_orc r2) out).
+  Proof.
+    intros (u1 & E1 & O1 & P1) (u2 & E2 & O2 & P2) v k out. exists (u1 ++ u2). cbn [cr_orc cr_st].
+    split; [rewrite E1, E2, app_assoc; reflexivity|]. split.
+    - apply inner_seq_app. rewrite P1. auto.
+    - rewrite inner_seq_end_app, P1. assumption.
+  Qed.
+
+  Lemma compress_body_uses s inp orc r : c_pend s = false -> c_compress_body H s inp orc = Some r -> uses s orc r.
+  Proof.
+    intros Hp. unfold c_compress_body.
+    set (inLen := N.min (lenN inp) (sub32 (c_mfs s) (c_fd s))).
+    destruct (0 <? inLen).
+    - destruct orc as [|[consumed produced ret|? ?] orc']; try discriminate. cbv zeta.
+      set (s1 := mkC _ _ _ _ _ _ _ _ _ _ _ _ _ _).
+      assert (U1 : uses s (ICompress consumed produced ret :: orc') (mkCR ret 0 s1 orc' [])).
+      { exists [ICompress consumed produced ret]. cbn [app cr_orc cr_st inner_seq_ok inner_seq_end]. unfold s1. cbn [c_pend]. auto. }
+      destruct (is_error ret).
+      { intros E. injection E as <-. destruct U1 as (u & ? & ? & ?). exists u. auto. }
+      destruct (c_mfs s1 =? c_fd s1).
+      + destruct (c_end_frame H s1 orc') as [r'|] eqn:E2; [|discriminate].
+        intros E. injection E as <-.
+        exact (uses_trans _ _ _ _ U1 (end_frame_uses s1 orc' r' E2) _ _ _).
+      + intros E. injection E as <-. destruct U1 as (u & ? & ? & ?). exists u. auto.
+    - destruct (is_error 0) eqn:E0; [discriminate E0|].
+      destruct (c_mfs s =? c_fd s).
+      + destruct (c_end_frame H s orc) as [r'|] eqn:E2; [|discriminate].
+        intros E. injection E as <-.
+        destruct (end_frame_uses s orc r' E2) as (u & ? & ? & ?). exists u. auto.
+      + intros E. injection E as <-. apply uses_nil. reflexivity.
+  Qed.
+
+  Lemma compress_uses s inp orc r : c_compress H s inp orc = Some r -> uses s orc r.
+  Proof.
+    unfold c_compress. destruct (c_pend s) eqn:Hp; [|apply compress_body_uses; assumption].
+    destruct (c_end_frame H s orc) as [r'|] eqn:E2; [|discriminate].
+    pose proof (end_frame_uses s orc r' E2) as U1.
+    destruct (N.eqb_spec (cr_ret r') 0) as [Ez|Hnz]; cbn [negb].
+    - intros E.
+      assert (Hp' : c_pend (cr_st r') = false).
+      { revert E2 Ez. unfold c_end_frame. destruct orc as [|[?|produced ret] orc']; try discriminate.
+        destruct (N.eqb_spec ret 0) as [->|Hr]; cbn [negb].
+        - cbn [c_log c_fc c_fd c_cf c_acc].
+          match goal with |- match ?X with _ => _ end = _ -> _ => destruct X end; try discriminate;
+            intros E3; injection E3 as <-; reflexivity.
+        - intros E3. injection E3 as <-. cbn [cr_ret]. intros; contradiction. }
+      pose proof (compress_body_uses (cr_st r') inp (cr_orc r') r Hp' E) as U2.
+      destruct r as [v k st o out].
+      exact (uses_trans _ _ _ _ U1 U2 v k out).
+    - intros E. injection E as <-. destruct U1 as (u & ? & ? & ?). exists u. cbn [cr_orc cr_st]. auto.
+  Qed.
+
+  Lemma end_stream_uses s avail orc r : c_end_stream H s avail orc = Some r -> uses s orc r.
+  Proof.
+    unfold c_end_stream. destruct (c_wst s).
+    - cbv beta iota. destruct (write_call _ _ _ _ _); try discriminate.
+      intros E. injection E as <-. apply uses_nil. reflexivity.
+    - destruct (c_end_frame H s orc) as [r'|] eqn:E2; [|discriminate].
+      destruct (end_frame_uses _ _ _ E2) as (u & Eu & Ou & Pu).
+      destruct (is_error (cr_ret r')).
+      { intros E. injection E as <-. exists u. cbn [cr_orc cr_st]. auto. }
+      destruct (negb (cr_ret r' =? 0)).
+      { intros E. injection E as <-. exists u. cbn [cr_orc cr_st]. auto. }
+      cbv beta iota. destruct (write_call _ _ _ _ _); try discriminate.
+      intros E. injection E as <-. exists u. cbn [cr_orc cr_st c_pend]. auto.
+  Qed.
+
+  Lemma op_uses s op r : c_op H s op = Some r -> uses s (orc_of op) r.
+  Proof.
+    destruct op as [inp orc|orc|avail orc]; cbn [c_op orc_of].
+    - apply compress_uses.
+    - apply end_frame_uses.
+    - apply end_stream_uses.
+  Qed.
+
+  (* EVERY history of API calls (no contract at all), EVERY inner behaviour: the inner calls the seekable layer makes,
+     in order, never contain a ZSTD_compressStream issued while a ZSTD_endStream is incomplete *)
+  Lemma run_uses : forall ops s s' rets, c_run H s ops = Some (s', rets) ->
+    inner_seq_ok (c_pend s) (flat_map orc_of ops) /\ inner_seq_end (c_pend s) (flat_map orc_of ops) = c_pend s'.
+  Proof.
+    induction ops as [|op rest IH]; intros s s' rets E; cbn [c_run flat_map] in *.
+    - injection E as <- <-. cbn. auto.
+    - destruct (c_op H s op) as [r|] eqn:Eop; [|discriminate].
+      destruct (op_uses s op r Eop) as (u & Eu & Ou & Pu).
+      destruct (cr_orc r); [|discriminate]. rewrite app_nil_r in Eu. subst u.
+      destruct (c_run H (cr_st r) rest) as [[s2 l]|] eqn:Erun; [|discriminate].
+      injection E as <- <-.
+      destruct (IH (cr_st r) s2 l Erun) as [O2 P2].
+      split.
+      + apply inner_seq_app. rewrite Pu. auto.
+      + rewrite inner_seq_end_app, Pu. assumption.
+  Qed.
+End OneEntryOneFrame.
+
+Lemma one_entry_one_frame H cf m s0 ops s' rets :
+  c_init cf m = Ok s0 -> c_run H s0 ops = Some (s', rets) -> inner_seq_ok false (flat_map orc_of ops).
+Proof.
+  intros E0 Erun. destruct (run_uses H ops s0 s' rets Erun) as [O _].
+  unfold c_init in E0. destruct (MAX_FRAME_DSIZE <? m); [discriminate|]. injection E0 as <-. exact O.
+Qed.
+
+(* witness for the code before fix 9f11afe (ZSTD_seekable_compressStream = c_compress_body, no pending test): after an
+   endFrame that returned 17 the next compressStream hands its input to the inner ZSTD_compressStream *)
+Example before_fix_compresses_into_pending_end :
+  exists s0 r1 r2, c_init 0 0 = Ok s0 /\
+    c_end_frame exc_H s0 [IEnd 2 17] = Some r1 /\ c_pend (cr_st r1) = true /\
+    c_compress_body exc_H (cr_st r1) [5; 6] [ICompress 2 19 7] = Some r2 /\ cr_consumed r2 = 2 /\
+    ~ inner_seq_ok false [IEnd 2 17; ICompress 2 19 7].
+Proof.
+  eexists. eexists. eexists. split; [reflexivity|]. split; [vm_compute; reflexivity|]. split; [reflexivity|].
+  split; [vm_compute; reflexivity|]. split; [reflexivity|]. cbn. intros [E _]. discriminate.
 Qed.
